@@ -409,6 +409,7 @@ func blockOnListChangeWorker(
 		// the wake-up removed this client from the wait lists, so it has to register anew (and
 		// look once more, as on entry) or later pushes would not wake it; it keeps its place
 		// among the waiting clients
+		verifPoint("before-reenter", ctx.cs)
 		ctx.dsc.ds.reenterListBlock(ws, keyNames)
 		output = op()
 		if output.data != nil {
